@@ -337,12 +337,19 @@ class KeepMonitor(object):
             must = g is None or g[0] == c or t > g[1] + U
             if g is None:
                 flags.append("acq.of-free-or-expired-lock")
+            elif g[0] == c and t > g[1] + U:
+                flags.append("acq.reacquire-of-own-expired-lock")
             if must and r is not True:
                 viol = {"signature": "batteries._ReplLockManagerImpl.acquire:expired-lock-not-obtainable",
                         "what": "acquire(L%d, client %d, stamp %d) answered %r although %s (U=%d); table %s"
                                 % (l, c, t, r, "nobody validly holds the lock (never granted / released / its holder's lock expired "
                                    "earlier in the log)" if g is None else
                                    "the holder %d's greatest stamp since it got the lock is %d" % g, U, sorted(after.items()))}
+            if g is not None and g[0] != c and t < g[1] + U and r is True and viol is None:
+                viol = {"signature": "batteries._ReplLockManagerImpl.acquire:lock-granted-within-unlock-time-of-holder",
+                        "what": "acquire(L%d, client %d, stamp %d) was granted although client %d was granted the lock and showed stamp %d "
+                                "since (U=%d, no release in between): two clients were told they hold L%d; table %s"
+                                % (l, c, t, g[0], g[1], U, l, sorted(after.items()))}
             if r is True:
                 self.grant[l] = (c, t if g is None or g[0] != c or t > g[1] + U else max(t, g[1]))
         elif cmd[0] == "pro":
@@ -408,3 +415,18 @@ def stalled(cmds, U, y, l):
                 return True
             m = max(m, c[2])
     return False
+
+
+def release_overtaken(submitted, committed, l, c, att):
+    """D73b, and only D73b: the client submitted `acquire(l, c, att)` and, after it, at least one `release(l, c)`
+    (the compensation); in the committed sequence every release of (l, c) that belongs after that acquire in
+    submission order sits BEFORE the acquire, none after it.  `submitted`: the client's own commands in submission
+    order; `committed`: the common sequence.  Anything else that keeps a failed acquire (no compensation submitted,
+    a compensation committed after the acquire and ignored, ...) is not this finding."""
+    acq, rel = ("acq", l, c, att), ("rel", l, c)
+    if acq not in submitted or acq not in committed:
+        return False
+    si, ci = submitted.index(acq), committed.index(acq)
+    sub_before, sub_after = submitted[:si].count(rel), submitted[si + 1:].count(rel)
+    com_before, com_after = committed[:ci].count(rel), committed[ci + 1:].count(rel)
+    return sub_after >= 1 and com_after == 0 and com_before > sub_before
